@@ -563,7 +563,35 @@ def rule_replicated_store(ctx: Ctx) -> None:
     ctx.ob("C17-5", "G1", pt, succ[0] if succ else None, ok, "ReplicatedStore.put reports success only with at least the required number of replica acknowledgements")
 
 
+def rule_merkle_tracks_store(ctx: Ctx) -> None:
+    """C17-4: a leader's Merkle tree is its summary of the store — anti-entropy compares root hashes and stops when they are equal.  Every
+    `self._merkle.update(key, V)` therefore records exactly the value written to the store in the same block, which is the value of the
+    version entered into the version table there."""
+    prog = ctx.prog
+    n = 0
+    for fn in prog.module(ML).all_functions:
+        if fn.cls is None or fn.cls.name != "LeaderNode":
+            continue
+        for blk in [b for x in ast.walk(fn.node) for fld in ("body", "orelse") for b in [getattr(x, fld, None)] if isinstance(b, list) and b and isinstance(b[0], ast.stmt)]:
+            ups = [k for st_ in blk for k in calls_in(st_) if path_of(k.func) == "self._merkle.update" and any(st_ is z for z in blk) and not isinstance(st_, (ast.If, ast.For, ast.While, ast.Try, ast.With))]
+            for u in ups:
+                n += 1
+                puts = [k for st_ in blk if not isinstance(st_, (ast.If, ast.For, ast.While, ast.Try, ast.With)) for k in calls_in(st_) if path_of(k.func) in ("self._store.put", "self._store.put_sync")]
+                vers = [st_ for st_ in blk if isinstance(st_, ast.Assign) and unparse(st_.targets[0]).replace(" ", "").startswith("self._versions[")]
+                ok = len(puts) == 1 and len(vers) == 1 and len(u.args) == 2 and len(puts[0].args) == 2 and unparse(u.args[0]) == unparse(puts[0].args[0]) and unparse(u.args[1]) == unparse(puts[0].args[1])
+                if ok:
+                    w = path_of(vers[0].value)
+                    v = unparse(u.args[1])
+                    ctor_vals = [unparse(kw.value) for st_ in walk_stmts(fn.node.body) if isinstance(st_, ast.Assign) and path_of(st_.targets[0]) == w and isinstance(st_.value, ast.Call)
+                                 for kw in st_.value.keywords if kw.arg == "value"]
+                    ok = w is not None and (v == f"{w}.value" or v in ctor_vals)
+                ctx.ob("C17-4", "G4", fn, u, ok, f"{fn.qual}: the Merkle summary records, for the same key, the very value written to the store, which is the value of the version entered in the version table "
+                       f"(`{unparse(u)[:70]}`)")
+    need(n >= 8, f"C17-4: expected >= 8 Merkle updates in LeaderNode, found {n}")
+
+
 def run(ctx: Ctx) -> None:
+    ctx.guarded(rule_merkle_tracks_store)
     rule_primary_backup(ctx)
     rule_reordering(ctx)
     rule_chain(ctx)
@@ -574,6 +602,7 @@ def run(ctx: Ctx) -> None:
 
 
 MUTANTS = [
+    ("replicate-merkle-records-incoming-not-winner", ML, "                    yield from self._store.put(key, winner.value)\n                    self._merkle.update(key, winner.value)\n\n        return None", "                    yield from self._store.put(key, winner.value)\n                    self._merkle.update(key, incoming.value)\n\n        return None", "C17-4"),
     ("vcmerge-fallback-local-wins-ties", CR, "        return LastWriterWins().resolve(key, [a, b])", "        return b if a.timestamp < b.timestamp else a", "C17-4"),
     ("sync-waits-for-any", PB, "            if len(ack_futures) >= 2:\n                yield all_of(*ack_futures)", "            if len(ack_futures) >= 2:\n                from happysimulator.core.sim_future import any_of\n\n                yield any_of(*ack_futures)", "C17-1"),
     ("sync-single-backup-no-wait", PB, "                yield all_of(*ack_futures)\n            elif ack_futures:\n                yield ack_futures[0]\n", "                yield all_of(*ack_futures)\n", "C17-1"),
